@@ -209,11 +209,14 @@ class Puddle:
                             segmented, utterance, i, j)
 
                         if j != len(utterance) - 1:
-                            # recursion
-                            return self._process_utterance(
-                                utterance[j+1:],
-                                segmented=segmented,
-                                do_update=do_update)
+                            # go on with the rest of the utterance,
+                            # from its first symbol (this was a recursive
+                            # call, a level per word found: it failed on
+                            # utterances of more than a thousand words)
+                            utterance = utterance[j+1:]
+                            found = False
+                            i = -1
+                            break
 
                         # go to the next chunk and apply the same condition
                         self._log.info(
